@@ -25,7 +25,7 @@ RULE = (
 )
 
 LABELS = ["foo", "Foo", "FOO", "f  oo", "ß", "SS", "é", "É", "bar baz", "Bar\tBaz", "İ", "i̇", "x]y".replace("]", ""), "a*b", "1", "ǅ", "Ǆ", "ǆ"]
-DEST = ["/u", "u", "<u v>", "http://a.b/c?d=e&f", "a\\)b", "&amp;x", "%20", "(p)", "jav&#x61;script:x", "JAVASCRIPT:x", "é", "a_b*", "/x#y"]
+DEST = ["/wiki/Foo_\\(bar\\)", "x\\)", "\\(y", "z\\\\", "q\\*", "/u", "u", "<u v>", "http://a.b/c?d=e&f", "a\\)b", "&amp;x", "%20", "(p)", "jav&#x61;script:x", "JAVASCRIPT:x", "é", "a_b*", "/x#y"]
 TITLE = ["", "t", "a b", "<&\">", "\\\"q\\\"", "&quot;", "*e*", "t\nu", " lead", "trail "]
 TEXT = ["x", "*e*", "`c`", "a ] b".replace(" ] ", " "), "[in]", "![i](j)", "\\]", "a\nb"]
 
@@ -42,7 +42,7 @@ def rand_defs(rng, with_flag=False):
     valid = True
     for _ in range(rng.randint(1, 4)):
         lab = rng.choice(LABELS)
-        dest = rng.choice(["/a", "/b", "<c d>", "http://x.y", "/e?f=g"])
+        dest = rng.choice(["/a", "/b", "<c d>", "http://x.y", "/e?f=g", "/w/F_\\(b\\)", "p\\)", "(q)", "r\\\\"])
         if rng.random() < 0.06:
             title = rng.choice(INVALID_TITLES)
             valid = False
